@@ -462,16 +462,20 @@ theorem tr_frag (ev : DB → List Nat → SqlCond → Option Bool) (hs : SqlSem 
     intro uo st p st' hf hg hinv h
     cases l with
     | other k => simp [Frag] at hf
+    | var v s => simp [Frag] at hf
+    | obj i => simp [Frag] at hf
     | chain c =>
       cases r with
       | other k => simp [Frag] at hf
+      | var v s => simp [Frag] at hf
+      | obj i => simp [Frag] at hf
       | lit v =>
         obtain ⟨h0, hv⟩ := hf
         have hgc : ∀ x ∈ roots, ∃ w, chainVal db [x] c = some w :=
           fun x hx => by obtain ⟨w, hw, _⟩ := hg.1 x hx c (by simp [exprChains]); exact ⟨w, hw⟩
         have hj : eqJoinFor S [sel] uo op (.chain c) (.lit v) st = .fallthrough := by
           cases op <;> rfl
-        simp only [tr, hj, trOrdinary, trOperand, Except.map] at h
+        simp only [tr, varObj?, hj, trOrdinary, trOperand, Except.map] at h
         split at h
         · simp at h
         · rename_i a st1 h1
@@ -510,7 +514,7 @@ theorem tr_frag (ev : DB → List Nat → SqlCond → Option Bool) (hs : SqlSem 
           have hj' : eqJoinAttempt S [sel] c d st = .fallthrough := by
             simp [eqJoinAttempt, h0, h0d]
           cases op <;> first | rfl | (simp only [eqJoinFor, hj']; split <;> rfl)
-        simp only [tr, hj, trOrdinary, trOperand, Except.map] at h
+        simp only [tr, varObj?, hj, trOrdinary, trOperand, Except.map] at h
         split at h
         · simp at h
         · rename_i a st1 h1
@@ -558,6 +562,8 @@ theorem tr_frag (ev : DB → List Nat → SqlCond → Option Bool) (hs : SqlSem 
     | lit v =>
       cases r with
       | other k => simp [Frag] at hf
+      | var v s => simp [Frag] at hf
+      | obj i => simp [Frag] at hf
       | lit w => simp [Frag] at hf
       | chain c =>
         obtain ⟨h0, hv⟩ := hf
@@ -565,7 +571,7 @@ theorem tr_frag (ev : DB → List Nat → SqlCond → Option Bool) (hs : SqlSem 
           fun x hx => by obtain ⟨w, hw, _⟩ := hg.1 x hx c (by simp [exprChains]); exact ⟨w, hw⟩
         have hj : eqJoinFor S [sel] uo op (.lit v) (.chain c) st = .fallthrough := by
           cases op <;> rfl
-        simp only [tr, hj, trOrdinary, trOperand, Except.map] at h
+        simp only [tr, varObj?, hj, trOrdinary, trOperand, Except.map] at h
         split at h
         · simp at h
         · rename_i a st1 h1
@@ -598,6 +604,8 @@ theorem tr_frag (ev : DB → List Nat → SqlCond → Option Bool) (hs : SqlSem 
     intro uo st p st' hf hg hinv h
     cases item with
     | other k => simp [Frag] at hf
+    | var v s => simp [Frag] at hf
+    | obj i => simp [Frag] at hf
     | lit v => simp [Frag] at hf
     | chain c =>
       have h0 : c.var = 0 := hf
@@ -645,6 +653,7 @@ theorem tr_frag (ev : DB → List Nat → SqlCond → Option Bool) (hs : SqlSem 
         rw [hcv] at h
         exact h
   | substr tab a b => intro uo st p st' hf; simp [Frag] at hf
+  | strAttr tab c => intro uo st p st' hf; simp [Frag] at hf
   | not e _ => intro uo st p st' hf; simp [Frag] at hf
   | exist v e _ => intro uo st p st' hf; simp [Frag] at hf
   | all v e _ => intro uo st p st' hf; simp [Frag] at hf
@@ -810,6 +819,7 @@ theorem C07_rejects_nested (S : Schema) (vars : List Cls) : ∀ (e : Expr) (uo :
   | isIn i vs => intro uo st h; simp [ContainsOutside, OutsideDispatch] at h
   | attr c => intro uo st h; simp [ContainsOutside, OutsideDispatch] at h
   | substr tab a b => intro uo st h; simp [ContainsOutside, OutsideDispatch] at h
+  | strAttr tab c => intro uo st h; simp [ContainsOutside, OutsideDispatch] at h
   | not e _ => intro uo st _; exact ⟨_, C07_rejects S vars uo _ st trivial⟩
   | exist v e _ => intro uo st _; exact ⟨_, C07_rejects S vars uo _ st trivial⟩
   | all v e _ => intro uo st _; exact ⟨_, C07_rejects S vars uo _ st trivial⟩
@@ -972,6 +982,61 @@ example : ∃ s, translate nameSchema ⟨false, .entity, ["Body"], some (.substr
     execSql nameSchema s nameDB = [1, 2] ∧
     evalMem nameSchema ⟨false, .entity, ["Body"], some (.substr nameTab (.lit 3) (.chain ⟨0, ["name"]⟩))⟩ nameDB = some [1, 2] := by
   refine ⟨_, rfl, ?_, ?_⟩ <;> decide
+
+/-! ## The two condition shapes added last: a bare STRING attribute, a whole variable compared with an object
+(open findings F-C07-6 / F-C07-7: counter-examples by `decide` on the recorded witnesses; `SqlCond.repair` is the statement
+a repaired translator would produce, and on the witnesses it agrees with memory) -/
+
+/-- ranks: 1 ↦ "", 2 ↦ "0", 3 ↦ "1", 4 ↦ "ab" (code-point order) -/
+def truthTab : StrTab := [[], ['0'], ['1'], ['a', 'b']]
+/-- bodies named "ab", "1", "0", "" -/
+def truthDB : DB := [named 4, named 3, named 2, named 1]
+/-- `an(entity(b, b.name))` -/
+def qStrTruthy : Query := ⟨false, .entity, ["Body"], some (.strAttr truthTab ⟨0, ["name"]⟩)⟩
+
+/-- **C07_cex_string_truthiness** (F-C07-6, open).  `entity(b, b.name)`: in memory every body with a non-empty name is
+selected ("ab", "1", "0"); the statement is `… WHERE BodyDAO.name`, and SQLite casts the TEXT to NUMERIC: only "1" is
+non-zero.  With the repaired rendering (`name IS NOT NULL AND name != ''`) both worlds agree. -/
+theorem C07_cex_string_truthiness :
+    ∃ s, translate nameSchema qStrTruthy = .ok s ∧ hasStrAttr (.strAttr truthTab ⟨0, ["name"]⟩) = true ∧
+      execSql nameSchema s truthDB = [1] ∧ evalMem nameSchema qStrTruthy truthDB = some [0, 1, 2] ∧
+      execSql nameSchema s.repair truthDB = [0, 1, 2] := by
+  refine ⟨_, rfl, rfl, ?_, ?_, ?_⟩ <;> decide
+
+/-- (tests) SQLite's cast on the strings probed on the real engine -/
+example : ([['1', '2', 'a'], ['-', '1'], ['0', '.', '5'], ['.', '5'], ['1', 'e', '3'], ['+', '2'], [' ', '3']].all sqliteTextTruthy
+    && ([['a', 'b'], ['0'], ['a', '1'], ['0', 'x', '1'], ['0', '0'], ['0', '.', '0'], ['-', '0'], [], ['e', '5'], ['-'], ['.']].all
+      fun s => !sqliteTextTruthy s)) = true := by decide
+
+/-- `p = let(Position, domain); an(entity(p, p == positions[3]))`; the first element of the domain is object 0 -/
+def qVarObj (i : Nat) (op : Cmp) : Query :=
+  ⟨false, .entity, ["Position"], some (.cmp op (.var 0 (some 0)) (.obj i))⟩
+
+/-- **C07_cex_var_eq_obj** (F-C07-7, open).  `p == obj` is evaluated by Python at translation time on the FIRST element
+of the variable's domain: for `obj` = that element the statement is `WHERE true` (every position is returned, memory
+returns one), for any other object `WHERE false` (nothing is returned, memory returns the object); `!=` likewise.  With
+the repaired rendering (comparison of primary keys) both worlds agree. -/
+theorem C07_cex_var_eq_obj :
+    (∃ s, translate posSchema (qVarObj 3 .eq) = .ok s ∧ execSql posSchema s posDB = [] ∧
+      evalMem posSchema (qVarObj 3 .eq) posDB = some [3] ∧ execSql posSchema s.repair posDB = [3]) ∧
+    (∃ s, translate posSchema (qVarObj 0 .eq) = .ok s ∧ execSql posSchema s posDB = [0, 1, 2, 3] ∧
+      evalMem posSchema (qVarObj 0 .eq) posDB = some [0] ∧ execSql posSchema s.repair posDB = [0]) ∧
+    (∃ s, translate posSchema (qVarObj 3 .ne) = .ok s ∧ execSql posSchema s posDB = [0, 1, 2, 3] ∧
+      evalMem posSchema (qVarObj 3 .ne) posDB = some [0, 1, 2] ∧ execSql posSchema s.repair posDB = [0, 1, 2]) ∧
+    hasVarObj (.cmp .eq (.var 0 (some 0)) (.obj 3)) = true := by
+  refine ⟨⟨_, rfl, ?_, ?_, ?_⟩, ⟨_, rfl, ?_, ?_, ?_⟩, ⟨_, rfl, ?_, ?_, ?_⟩, rfl⟩ <;> decide
+
+/-- a class with a `name`: the sample is replaced by its database id, which never equals an object: `b == obj` is
+`WHERE false` whatever `obj` is (a test) -/
+example : ∃ s, translate nameSchema ⟨false, .entity, ["Body"], some (.cmp .eq (.var 0 (some 0)) (.obj 0))⟩ = .ok s ∧
+    execSql nameSchema s nameDB = [] ∧
+    evalMem nameSchema ⟨false, .entity, ["Body"], some (.cmp .eq (.var 0 (some 0)) (.obj 0))⟩ nameDB = some [0] := by
+  refine ⟨_, rfl, ?_, ?_⟩ <;> decide
+
+/-- the new atoms are outside `Frag`: `C07_preserves_partial` does not claim them (the trigger of the two findings is
+the complement) -/
+example : ¬ Frag (.strAttr truthTab ⟨0, ["name"]⟩) ∧ ¬ Frag (.cmp .eq (.var 0 (some 0)) (.obj 3)) := by
+  simp [Frag]
 
 /-! ## Non-vacuity: the hypotheses of `C07_preserves_partial` are satisfiable by a non-trivial input, the translator
 accepts it, and the common answer is neither empty nor everything. -/
